@@ -82,7 +82,7 @@ func runC10Retry(t *testing.T, seed uint64, planJSON []byte, tier string) (res *
 		plan.Episodes[0].P2Faults = []DBFault{}
 		plan.Episodes[0].Redeliver = g.Range(0, 3)
 	}
-	res.Harness = runBubble(t, func(t *testing.T) {
+	res.Harness = runBubbleP(t, plan, func(t *testing.T) {
 		r := setupAT(seed, tape, plan, "C10", res)
 		if r == nil {
 			return
@@ -296,7 +296,7 @@ func runC10Late(t *testing.T, seed uint64, planJSON []byte, tier string) (res *R
 			ep.Redeliver = g.Range(0, 2)
 		}
 	}
-	res.Harness = runBubble(t, func(t *testing.T) {
+	res.Harness = runBubbleP(t, plan, func(t *testing.T) {
 		r := setupAT(seed, tape, plan, "C10", res)
 		if r == nil {
 			return
